@@ -651,3 +651,146 @@ func edgeSet(m map[*ssa.BasicBlock]int) func(*ssa.BasicBlock, int) bool {
 		return ok && v == si
 	}
 }
+
+// derivationChain: v and everything it is derived from by loads, field / element selection, re-slicing, len(), tuple
+// extraction and phi edges — the access path of v up to its root
+func derivationChain(v ssa.Value) map[ssa.Value]bool {
+	out := map[ssa.Value]bool{}
+	var walk func(v ssa.Value, d int)
+	walk = func(v ssa.Value, d int) {
+		if v == nil || d > 30 {
+			return
+		}
+		r := resolve(v)
+		if out[r] && out[v] {
+			return
+		}
+		out[v], out[r] = true, true
+		switch x := r.(type) {
+		case *ssa.UnOp:
+			walk(x.X, d+1)
+		case *ssa.FieldAddr:
+			walk(x.X, d+1)
+		case *ssa.Field:
+			walk(x.X, d+1)
+		case *ssa.IndexAddr:
+			walk(x.X, d+1)
+		case *ssa.Index:
+			walk(x.X, d+1)
+		case *ssa.Slice:
+			walk(x.X, d+1)
+		case *ssa.Extract:
+			walk(x.Tuple, d+1)
+		case *ssa.Next:
+			walk(x.Iter, d+1)
+		case *ssa.Range:
+			walk(x.X, d+1)
+		case *ssa.MakeInterface:
+			walk(x.X, d+1)
+		case *ssa.ChangeType:
+			walk(x.X, d+1)
+		case *ssa.Convert:
+			walk(x.X, d+1)
+		case *ssa.Phi:
+			for _, e := range x.Edges {
+				walk(e, d+1)
+			}
+		case *ssa.Call:
+			if bi, ok := x.Call.Value.(*ssa.Builtin); ok {
+				if bi.Name() == "len" || bi.Name() == "cap" {
+					walk(x.Call.Args[0], d+1)
+				}
+				return
+			}
+			// a value computed from its arguments (strings.Split(id, ","), a conversion helper): derived from them
+			for _, a := range x.Call.Args {
+				walk(a, d+1)
+			}
+			if x.Call.IsInvoke() {
+				walk(x.Call.Value, d+1)
+			}
+		}
+	}
+	walk(v, 0)
+	return out
+}
+
+// pathRelated: one of the two values lies on the access path of the other (the tested value is the operand, a part of
+// the operand, or what the operand is taken from) — sharing only a root object (two different fields of the receiver)
+// does not count
+func pathRelated(tested ssa.Value, operand ssa.Value) bool {
+	ct, co := derivationChain(tested), derivationChain(operand)
+	rt, ro := resolve(tested), resolve(operand)
+	isRoot := func(v ssa.Value) bool {
+		switch v.(type) {
+		case *ssa.Parameter, *ssa.FreeVar, *ssa.Global:
+			return true
+		}
+		return false
+	}
+	// the operand is (part of) what is tested, or the tested value is (part of) the operand; a bare root on the *tested*
+	// side ("recv != nil") is as good as before, a bare root on the operand side relates everything below it and is
+	// accepted only when the operand really is that root
+	if co[rt] || co[tested] {
+		return true
+	}
+	if ct[ro] || ct[operand] {
+		return true
+	}
+	// the same access path reached through two loads (`if w.onStop != nil { w.onStop() }`): compare canonical paths,
+	// bare roots excluded
+	canonSet := func(m map[ssa.Value]bool) map[string]bool {
+		out := map[string]bool{}
+		for v := range m {
+			if isRoot(resolve(v)) {
+				continue
+			}
+			if _, isK := v.(*ssa.Const); isK {
+				continue
+			}
+			if s := canonOf(v); s != "" && s != "?" {
+				out[s] = true
+			}
+		}
+		return out
+	}
+	st, so := canonSet(ct), canonSet(co)
+	if so[canonOf(tested)] || st[canonOf(operand)] {
+		return true
+	}
+	return false
+}
+
+// emptinessGuardEdgesFor is emptinessGuardEdges for the operands of the given calls: the tested value must be path-related
+// to an operand of one of them, not merely share its root object
+func emptinessGuardEdgesFor(fn *ssa.Function, calls []ssa.CallInstruction) map[*ssa.BasicBlock]int {
+	allowed := map[ssa.Value]bool{}
+	var operands []ssa.Value
+	for _, c := range calls {
+		for r := range rootsOfCall(c) {
+			allowed[r] = true
+		}
+		cc := c.Common()
+		if cc.IsInvoke() {
+			operands = append(operands, cc.Value)
+		} else if _, ok := cc.Value.(*ssa.Function); !ok {
+			if _, ok := cc.Value.(*ssa.Builtin); !ok {
+				operands = append(operands, cc.Value)
+			}
+		}
+		operands = append(operands, cc.Args...)
+	}
+	coarse := emptinessGuardEdges(fn, allowed)
+	out := map[*ssa.BasicBlock]int{}
+	for b, si := range coarse {
+		iff := b.Instrs[len(b.Instrs)-1].(*ssa.If)
+		em, _ := asEmptiness(iff.Cond)
+		for _, op := range operands {
+			if pathRelated(em.X, op) {
+				out[b] = si
+				break
+			}
+		}
+	}
+	return out
+}
